@@ -83,7 +83,9 @@ impl Report {
     }
     /// sample roughly every `every`-th evaluation until full
     pub fn sample_every<F: FnOnce() -> String>(&mut self, every: u64, f: F) {
-        if self.samples.len() < MAX_SAMPLES && self.evaluations % every.max(1) == 0 {
+        if (self.samples.len() < MAX_SAMPLES && self.evaluations % every.max(1) == 0)
+            || (self.samples.len() < 3 && self.evaluations >= 8 && self.evaluations.is_power_of_two())
+        {
             self.samples.push(f());
         }
     }
